@@ -175,6 +175,29 @@ func gossipCmd(out *cq.Out, seed uint64, tier string) {
 		}
 		views := gossip.VDelegateView(evs, roles)
 		present := map[string]bool{}
+		// the same notifications as a case of the model (Gossip/GossipView.v: view_consistent): after each one the peers
+		// listed for the role concerned, as a set
+		var mops []string
+		roleIx := map[string]int{"auditor": 0, "monitor": 1, "publisher": 2}
+		for i, e := range evs {
+			var pn int
+			fmt.Sscanf(e.Name, "n%d", &pn)
+			if e.Kind == 1 {
+				mops = append(mops, fmt.Sprintf("GDelete %d%%N %d%%N", roleIx[e.Role], pn))
+			} else {
+				mops = append(mops, fmt.Sprintf("GUpdate %d%%N %d%%N", roleIx[e.Role], pn))
+			}
+			var listed []string
+			for _, x := range views[i] {
+				if strings.HasPrefix(x, e.Role+"/") {
+					var q int
+					fmt.Sscanf(strings.TrimPrefix(x, e.Role+"/"), "n%d", &q)
+					listed = append(listed, cq.N(uint64(q)))
+				}
+			}
+			mops = append(mops, fmt.Sprintf("GMembers %d%%N %s", roleIx[e.Role], cq.List(listed)))
+		}
+		cases = append(cases, cq.List(mops))
 		for i, e := range evs {
 			id := e.Role + "/" + e.Name
 			if e.Kind == 1 {
